@@ -95,6 +95,8 @@ Definition g_badclose (g : gpc) : bool := match g with GClose KStart | GClose KL
 
 Definition e_proxy (e : epcT) : Z := match e with EWgAdd | ESpawn => 1 | _ => 0 end.
 Definition e_guard (e : epcT) : Z := match e with EChk | EGetCb | ECas | EWgAdd | ESpawn | EClrP => 1 | _ => 0 end.
+(* the event loop will clear pendingData if it finds the state closed at its next state check *)
+Definition e_wclr (e : epcT) : Z := match e with EAdd _ | EChk | EClrP => 1 | _ => 0 end.
 Definition e_clr (e : epcT) : Z := match e with EClrP | EClrR => 1 | _ => 0 end.
 Definition e_halfn (e : epcT) : Z := match e with EHalfN => 1 | _ => 0 end.
 Definition e_half (e : epcT) : Z := match e with EHalf => 1 | _ => 0 end.
@@ -152,9 +154,9 @@ Proof.
     pose proof (cstep_mono s c) as Hm; unfold mono in *. destruct (negb (isret c) && isret (snd (cstep s c))); cbn; exact Hm.
   - unfold sstep, mono. destruct (spc s); cbn; try destruct (sypc s); try destruct (cbset s) eqn:Ecb; zeq; cbn; lia.
   - unfold ustep, mono. destruct (nth_error (users s) i) as [u|]; [|lia].
-    destruct (upc u); cbn; [destruct (utodo u); cbn; lia|zeq; cbn; lia|lia].
-  - unfold systep, mono. destruct (sypc s); cbn; [|lia]. destruct (cbset s); [lia|]. destruct (spc s); try lia.
-    destruct (sytodo s); cbn; lia.
+    destruct (upc u); cbn; [destruct (utodo u); cbn; lia|lia|zeq; cbn; lia|lia].
+  - unfold systep, mono. destruct (sypc s); [|cbn; lia]. destruct (cbset s); [cbn; lia|].
+    destruct (spc s); try (cbn; lia). destruct (sytodo s) as [|k r]; [cbn; lia|]. destruct (sy_moves s k); cbn; lia.
 Qed.
 
 Lemma run_app a b s : run (a ++ b) s = run b (run a s).
@@ -182,7 +184,7 @@ Ltac cb := cbn [step estep gstep clstep sstep ustep systep cstep setg clear_pend
   set_gors set_clos set_spc set_users set_script set_sypc set_sytodo set_processed set_arrived set_chunks set_consumed set_offers
   set_nlocal set_nremote set_out set_khalf set_lhalf set_casfail set_nret
   b2z nz c_athalf c_needcl c_pendcb c_send c_cleanT c_ret c_busy c_past gl g_own g_re g_act g_run g_cb g_exit g_all g_atclr g_w g_cbpast g_xc g_badclose
-  e_proxy e_guard e_clr e_halfn e_half e_cas s_proxy s_busy y_busy upc utodo ures negb orb andb cz ncl] in *.
+  e_proxy e_guard e_wclr e_clr e_halfn e_half e_cas s_proxy s_busy y_busy upc utodo ures negb orb andb cz ncl] in *.
 
 Ltac cases s w :=
   destruct w as [|i|i| |i|]; cbn [step];
@@ -192,7 +194,7 @@ Ltac cases s w :=
       [destruct g as [| | |k cl|c more| | | | | | | |c|]; [ | | |destruct cl|destruct c| | | | | | | |destruct c|] |]
   | unfold clstep; destruct (nth_error (clos s) i) as [c|] eqn:Hn; [destruct c|]
   | unfold sstep; destruct (spc s) eqn:Es; [destruct (sypc s) eqn:Ey|..]
-  | unfold ustep; destruct (nth_error (users s) i) as [u|] eqn:Hn; [destruct (upc u) as [|m|m aft]; [destruct (utodo u)| |]|]
+  | unfold ustep; destruct (nth_error (users s) i) as [u|] eqn:Hn; [destruct (upc u) as [|m|m|m aft]; [destruct (utodo u)| | |]|]
   | unfold systep; destruct (sypc s) eqn:Ey;
       [destruct (cbset s) eqn:Ecb; [|destruct (spc s) eqn:Es; [destruct (sytodo s) eqn:Eyt|..]]|] ];
   cb.
@@ -205,6 +207,7 @@ Ltac brk := repeat match goal with
   | |- context [match recv ?s with _ => _ end] => destruct (recv s) eqn:Erv
   | |- context [match pending ?s with _ => _ end] => destruct (pending s) eqn:Epd
   | |- context [match ?m with O => _ | S _ => _ end] => destruct m
+  | |- context [if sy_moves ?s ?k then _ else _] => destruct (sy_moves s k)
   | |- context [if ?c then _ else _] => match c with context [?a =? ?b] => destruct (Z.eqb_spec a b) end
   end; cb.
 
@@ -904,80 +907,90 @@ Definition c_pre (c : cpc) : bool := match c with CWait _ | CTbl _ | CPend _ => 
 Definition c_cl4 (c : cpc) : bool := match c with CWait _ | CTbl _ | CPend _ | CRecv _ => true | _ => false end.
 Definition c_atrecv (c : cpc) : bool := match c with CRecv _ => true | _ => false end.
 
+Definition e_wrec (e : epcT) : Z := match e with EAdd _ | EChk | EClrP | EClrR => 1 | _ => 0 end.
 Record InvQ (s : est) : Prop := {
   q_tbl : cz c_late (clos s) + cz (gl c_late) (gors s) = 0 \/ b2z (intable s) = 0;
-  q_pend : st s <> c_streamClosed \/ cz c_pre (clos s) + cz (gl c_pre) (gors s) > 0 \/ nz (pending s) = 0;
-  q_recv : st s <> c_streamClosed \/ cz c_cl4 (clos s) + cz (gl c_cl4) (gors s) > 0 \/ nz (recv s) = 0;
-  q_atrecv : cz c_atrecv (clos s) + cz (gl c_atrecv) (gors s) = 0 \/ nz (pending s) = 0 }.
+  (* an arrival whose table lookup preceded the clean may be added after it: the event loop is then on its way
+     to the state check that clears it *)
+  q_pend : st s <> c_streamClosed \/ cz c_pre (clos s) + cz (gl c_pre) (gors s) > 0 \/ nz (pending s) = 0 \/
+           e_wclr (epc s) = 1;
+  (* without callbacks the event loop also recycles recvBuf; WITH callbacks a goroutine that outlives the clean
+     can move such a late arrival into recvBuf, where nothing recycles it any more (see no_residue_refuted) *)
+  q_recv : st s <> c_streamClosed \/ cz c_cl4 (clos s) + cz (gl c_cl4) (gors s) > 0 \/ nz (recv s) = 0 \/
+           b2z (cbset s) = 1 \/ e_wrec (epc s) = 1 }.
 
 Lemma nz_skipn {A} k (l : list A) : nz l = 0 -> nz (skipn k l) = 0.
 Proof. destruct l; simpl; [destruct k; reflexivity|lia]. Qed.
 Lemma nz_app_nil {A} (l : list A) (p : list (list A)) : nz p = 0 -> l ++ concat p = l.
 Proof. destruct p; simpl; [intros _; apply app_nil_r|lia]. Qed.
 
-Ltac cbq := cbn [c_late c_pre c_cl4 c_atrecv] in *.
+Ltac cbq := cbn [c_late c_pre c_cl4 c_atrecv e_wclr e_wrec] in *.
 Ltac czq s :=
   pose proof (cz_nonneg c_late (clos s)); pose proof (cz_nonneg (gl c_late) (gors s));
   pose proof (cz_nonneg c_pre (clos s)); pose proof (cz_nonneg (gl c_pre) (gors s));
   pose proof (cz_nonneg c_cl4 (clos s)); pose proof (cz_nonneg (gl c_cl4) (gors s));
-  pose proof (cz_nonneg c_atrecv (clos s)); pose proof (cz_nonneg (gl c_atrecv) (gors s));
   pose proof (cz_le c_pre c_cl4 (clos s) ltac:(intros [] E; simpl in *; congruence));
   pose proof (cz_le (gl c_pre) (gl c_cl4) (gors s) ltac:(intros [| | | | c| | | | | | | |c|] E; simpl in *; try congruence; destruct c; simpl in *; congruence));
   pose proof (cz_le c_cleanT c_pre (clos s) ltac:(intros [] E; simpl in *; congruence));
   pose proof (cz_le (gl c_cleanT) (gl c_pre) (gors s) ltac:(intros [| | | | c| | | | | | | |c|] E; simpl in *; try congruence; destruct c; simpl in *; congruence));
-  pose proof (cz_le c_atrecv c_late (clos s) ltac:(intros [] E; simpl in *; congruence));
-  pose proof (cz_le (gl c_atrecv) (gl c_late) (gors s) ltac:(intros [| | | | c| | | | | | | |c|] E; simpl in *; try congruence; destruct c; simpl in *; congruence));
-  pose proof (b2z_range (intable s)).
+  pose proof (b2z_range (intable s)); pose proof (b2z_range (cbset s));
+  assert (0 <= e_wclr (epc s) <= e_wrec (epc s) /\ e_wrec (epc s) <= 1) by (destruct (epc s); simpl; lia).
 Ltac czinq := match goal with
   | Hn : nth_error (clos _) _ = Some _ |- _ =>
       try (pose proof (cz_pos_in c_late _ _ _ Hn eq_refl)); try (pose proof (cz_pos_in c_pre _ _ _ Hn eq_refl));
-      try (pose proof (cz_pos_in c_cl4 _ _ _ Hn eq_refl)); try (pose proof (cz_pos_in c_atrecv _ _ _ Hn eq_refl))
+      try (pose proof (cz_pos_in c_cl4 _ _ _ Hn eq_refl))
   | Hn : nth_error (gors _) _ = Some _ |- _ =>
       try (pose proof (cz_pos_in (gl c_late) _ _ _ Hn eq_refl)); try (pose proof (cz_pos_in (gl c_pre) _ _ _ Hn eq_refl));
-      try (pose proof (cz_pos_in (gl c_cl4) _ _ _ Hn eq_refl)); try (pose proof (cz_pos_in (gl c_atrecv) _ _ _ Hn eq_refl))
+      try (pose proof (cz_pos_in (gl c_cl4) _ _ _ Hn eq_refl)); try (pose proof (cz_pos_in g_all _ _ _ Hn eq_refl))
   | _ => idtac end.
 Ltac finq s := cb; cbq; rw_eqs; rw_cnt; cb; cbq; try assumption; czinq; cb; cbq; uc; zeqh; uc; cb; cbq; try lia; czq s; lia.
 
-Lemma stepQ s w : InvP s -> InvT s -> InvQ s -> InvQ (step s w).
+Lemma stepQ s w : InvP s -> InvT s -> InvC s -> InvQ s -> InvQ (step s w).
 Proof.
-  intros [_ P2 P3 _ P7] [T1 _ _] [Q1 Q2 Q3 Q4].
+  intros [_ P2 P3 _ P7] [T1 _ _] [_ _ _ C4 _ _ _ _] [Q1 Q2 Q3].
   cases s w; brk; constructor; try solve [finq s].
-  (* moveTo (goroutine or synchronous read): after the clean nothing is pending, so nothing is moved;
-     a consume only shrinks recvBuf *)
+  (* moveTo (goroutine or synchronous read) and consumes *)
   all: cb; cbq; rw_eqs; rw_cnt; cb; cbq; cb;
-    first [ destruct (Z.eq_dec (nz (pending s)) 0) as [Hp|Hp]; [rewrite (nz_app_nil _ _ Hp); czq s; lia|czq s; lia]
-          | destruct (Z.eq_dec (nz (recv s)) 0) as [Hp|Hp]; [rewrite (nz_skipn _ _ Hp); czq s; lia|czq s; lia] ].
+    first [ destruct (Z.eq_dec (nz (pending s)) 0) as [Hp|Hp]; [rewrite (nz_app_nil _ _ Hp); czinq; czq s; lia|czinq; czq s; lia]
+          | destruct (Z.eq_dec (nz (recv s)) 0) as [Hp|Hp]; [rewrite (nz_skipn _ _ Hp); czinq; czq s; lia|czinq; czq s; lia] ].
 Qed.
-
 Lemma initQ cb0 inb n scr ups sy : InvQ (init_sy cb0 inb n scr ups sy).
 Proof. constructor; cbn; rewrite ?cz_repeat_false by reflexivity; uc; lia. Qed.
 Lemma runQ sched s : InvAll s -> InvQ s -> InvQ (run sched s).
 Proof.
   revert s; induction sched as [|w l IH]; simpl; intros s HA HQ; auto.
-  apply IH; [apply stepAll, HA|apply stepQ; [apply HA|apply HA|exact HQ]].
+  apply IH; [apply stepAll, HA|apply stepQ; [apply HA|apply HA|apply HA|exact HQ]].
 Qed.
 
-(* at closed quiescence nothing is left in pendingData or recvBuf (so a read returns end-of-stream at once) *)
-Theorem no_residue cb0 inb nc scr ups sy sched :
+(* at closed quiescence nothing is left in pendingData; nothing is left in recvBuf either when no callbacks are
+   installed (a read then returns end-of-stream at once) *)
+Theorem no_residue_partial cb0 inb nc scr ups sy sched :
   let s := run sched (init_sy cb0 inb nc scr ups sy) in
-  st s = c_streamClosed ->
+  st s = c_streamClosed -> epc s = EIdle ->
   (forall i g, nth_error (gors s) i = Some g -> g = GExit) ->
   (forall i c, nth_error (clos s) i = Some c -> c = KRet \/ c = KStart) ->
-  pending s = [] /\ recv s = [] /\ read_res s = REndOfStream.
+  pending s = [] /\ (cbset s = false -> recv s = [] /\ read_res s = REndOfStream).
 Proof.
-  intros s Hst Hg Hc.
-  pose proof (runQ sched _ (initAll cb0 inb nc scr ups sy) (initQ cb0 inb nc scr ups sy)) as [_ Q2 Q3 _]. fold s in Q2, Q3.
+  intros s Hst He Hg Hc.
+  pose proof (runQ sched _ (initAll cb0 inb nc scr ups sy) (initQ cb0 inb nc scr ups sy)) as [_ Q2 Q3]. fold s in Q2, Q3.
   assert (G0 : forall f, f GExit = false -> cz f (gors s) = 0).
   { intros f Hf. apply cz_all_false. intros j g Hj. rewrite (Hg j g Hj). exact Hf. }
   assert (C0 : forall f, f KRet = false -> f KStart = false -> cz f (clos s) = 0).
   { intros f H1 H2. apply cz_all_false. intros j c Hj. destruct (Hc j c Hj) as [->| ->]; auto. }
-  rewrite (G0 (gl c_pre)), (C0 c_pre) in Q2 by reflexivity.
-  rewrite (G0 (gl c_cl4)), (C0 c_cl4) in Q3 by reflexivity.
+  rewrite (G0 (gl c_pre)), (C0 c_pre), He in Q2 by reflexivity.
+  rewrite (G0 (gl c_cl4)), (C0 c_cl4), He in Q3 by reflexivity. cbn [e_wclr e_wrec] in Q2, Q3.
   assert (Hp : pending s = []) by (apply nz_nil; lia).
+  split; [exact Hp|]. intros Hcb. rewrite Hcb in Q3. cbn [b2z] in Q3.
   assert (Hr : recv s = []) by (apply nz_nil; lia).
-  repeat split; auto. unfold read_res. rewrite Hp, Hr. simpl.
+  split; auto. unfold read_res. rewrite Hp, Hr. simpl.
   destruct (Z.eqb_spec (st s) c_streamOpened); [uc; lia|reflexivity].
 Qed.
+Definition no_residue_stmt : Prop := forall cb0 inb nc scr ups sy sched,
+  let s := run sched (init_sy cb0 inb nc scr ups sy) in
+  st s = c_streamClosed -> epc s = EIdle ->
+  (forall i g, nth_error (gors s) i = Some g -> g = GExit) ->
+  (forall i c, nth_error (clos s) i = Some c -> c = KRet \/ c = KStart) ->
+  recv s = [].
 
 (* ---------- the bytes an OnData invocation was offered stay readable until it returns: while an OnData runs the
    event loop never touches recvBuf.  (The closed path of fillDataToReadBuffer recycles recvBuf only when no
@@ -1057,8 +1070,9 @@ Proof.
   destruct w as [|j|j| |i|]; try (rewrite users_frame; [exact HU|intros k; discriminate]).
   cbn [step]. unfold ustep. destruct (nth_error (users s) i) as [u|] eqn:Hn; [|exact HU].
   destruct (Forall_nth _ _ _ _ HU Hn) as [Hr Hp].
-  destruct (upc u) as [|m|m aft] eqn:Eu.
+  destruct (upc u) as [|m|m|m aft] eqn:Eu.
   - destruct (utodo u); [exact HU|]. cb. apply Forall_set_nth; [exact HU|]. split; cbn; [exact Hr|intros m0; discriminate].
+  - cb. apply Forall_set_nth; [exact HU|]. split; cbn; [exact Hr|intros m0; discriminate].
   - destruct (Z.eqb_spec (st s) c_streamOpened) as [E|E]; cb; apply Forall_set_nth; try exact HU; split; cbn.
     + exact Hr.
     + rewrite (N2 E). cbn. intros m0; discriminate.
@@ -1096,4 +1110,53 @@ Proof.
     subst aft. destruct ok; [discriminate|reflexivity].
   - intros Hn. assert (Hst : st s <> c_streamOpened) by (intros E; specialize (N2 E); lia).
     split; [exact Hst|split; [apply flush_closed|apply read_not_blocked]]; auto.
+Qed.
+
+(* ====================================================================================================
+   The pendingData mutex: the fine-grained machine refines the atomic one — every fine schedule performs a
+   schedule of the atomic machine (its Plain and Commit steps, in order); lock, busy, walk and unlock steps
+   leave the stream state alone.  Hence every theorem above holds of every state the fine machine reaches.
+   ==================================================================================================== *)
+Lemma faction_held f w : (faction f w = FCommit \/ (exists i, faction f w = FWalk i)) -> exists h i n c, plk f = Some (h, i, n, c).
+Proof.
+  unfold faction. destruct (plk f) as [[[[h j] n] c]|]; [intros _; eauto|].
+  destruct (pend_op (base f) w); intros [H|[i H]]; discriminate.
+Qed.
+Lemma frun_proj sched f : base (frun sched f) = run (fproj sched f) (base f).
+Proof.
+  revert f; induction sched as [|w r IH]; intros f; [reflexivity|].
+  cbn [frun fold_left fproj]. fold (frun r (fstep f w)). rewrite IH.
+  destruct (faction f w) eqn:Ea; unfold fstep at 2; rewrite Ea; cbn [base run fold_left]; try reflexivity.
+  - destruct (faction_held f w (or_intror (ex_intro _ i Ea))) as [h [j [n [c Hp]]]]. rewrite Hp. reflexivity.
+  - destruct (faction_held f w (or_introl Ea)) as [h [j [n [c Hp]]]]. rewrite Hp. reflexivity.
+Qed.
+
+Theorem fine_reach sched s0 : exists sched', base (frun sched (finit s0)) = run sched' s0.
+Proof. exists (fproj sched (finit s0)). apply frun_proj. Qed.
+
+Lemma who_eqb_eq a b : who_eqb a b = true <-> a = b.
+Proof.
+  destruct a, b; simpl; split; intros H; try discriminate; try reflexivity;
+    try (apply Nat.eqb_eq in H; subst; reflexivity); try (inversion H; subst; apply Nat.eqb_refl).
+Qed.
+
+(* while some other thread holds the mutex (walking r.unread or between its operation and its unlock), a thread
+   whose next step is a pendingData operation — in particular the event loop's add — does not move *)
+Theorem excluded_while_held sched s0 w h i n c :
+  let f := frun sched (finit s0) in
+  plk f = Some (h, i, n, c) -> h <> w -> pend_op (base f) w <> None -> fstep f w = f.
+Proof.
+  intros f Hp Hne Hop. unfold fstep, faction. rewrite Hp.
+  destruct (who_eqb h w) eqn:E; [apply who_eqb_eq in E; contradiction|].
+  destruct (pend_op (base f) w); [reflexivity|congruence].
+Qed.
+
+(* order / exactly once, over the fine steps *)
+Theorem order_once_fine cb0 inb nc scr ups sy sched :
+  let s := base (frun sched (finit (init_sy cb0 inb nc scr ups sy))) in
+  arrived s = concat (map snd (chunks s)) ++ concat (pending s) /\
+  moved s = concat (map snd (filter fst (chunks s))) /\
+  (st s <> c_streamClosed -> arrived s = consumed s ++ recv s ++ concat (pending s)).
+Proof.
+  intros s. unfold s. rewrite frun_proj. cbn [finit base]. apply order_once.
 Qed.
